@@ -181,6 +181,11 @@ func (eng *Engine) tagByName(name string) (int, bool) {
 			return id, true
 		}
 	}
+	if obj := types.Universe.Lookup(name); obj != nil {
+		if tn, ok := obj.(*types.TypeName); ok {
+			return eng.tagOf(tn.Type()), true
+		}
+	}
 	// resolve through loaded packages
 	for _, p := range eng.pkgs {
 		star := strings.HasPrefix(name, "*")
@@ -495,6 +500,14 @@ func (eng *Engine) verifyFunc(fn *ssa.Function, con *Contract, mode string) *VC 
 		for i := 0; i < fn.Signature.Results().Len(); i++ {
 			env.resNames = append(env.resNames, fn.Signature.Results().At(i).Name())
 		}
+		for _, c := range con.Lemmas {
+			// a lemma instance is an elementary mathematical fact about spec functions stated for this
+			// function's values; it is assumed (and listed) wherever the names it mentions are in scope
+			if g, err := env.evalBool(c.E); err == nil {
+				vc.assert(sImp(rt.reach, g))
+				vc.assumptions["lemma instance (trusted) in "+name+": "+c.Text] = true
+			}
+		}
 		for ci, c := range con.Ensures {
 			g, err := env.evalBool(c.E)
 			if err != nil {
@@ -515,33 +528,44 @@ func (eng *Engine) verifyFunc(fn *ssa.Function, con *Contract, mode string) *VC 
 func (eng *Engine) relevantAxioms(vc *VC) []string {
 	var out []string
 	fr := &Frame{vc: vc, eng: eng, regs: map[ssa.Value][]string{}}
-	for _, ax := range eng.cs.Axioms {
-		names := specNames(ax.E, nil)
-		ok := true
-		for _, n := range names {
-			if sf, isSpec := eng.cs.lookupSpec(ax.Pkg, n); isSpec {
-				if sf.Body == nil {
-					if _, declared := vc.declared[n]; !declared {
-						ok = false
+	// an axiom is relevant when it mentions an uninterpreted spec function the VC uses; including it may
+	// declare further functions, which may make further axioms relevant (fixpoint)
+	done := map[*Axiom]bool{}
+	for changed := true; changed; {
+		changed = false
+		for _, ax := range eng.cs.Axioms {
+			if done[ax] {
+				continue
+			}
+			names := specNames(ax.E, nil)
+			ok := false
+			for _, n := range names {
+				if sf, isSpec := eng.cs.lookupSpec(ax.Pkg, n); isSpec && sf.Body == nil {
+					if _, declared := vc.declared[n]; declared {
+						ok = true
 					}
 				}
 			}
-		}
-		if !ok {
-			continue
-		}
-		st := State{mem: map[Sort]string{}, brk: "brk0"}
-		env := &Env{fr: fr, st: &st, old: &st, vars: map[string]tval{}}
-		for _, p := range eng.pkgs {
-			if p.PkgPath == ax.Pkg {
-				env.pkg = p.Types
+			if !ok {
+				continue
 			}
+			done[ax] = true
+			changed = true
+			st := State{mem: map[Sort]string{}, brk: "brk0"}
+			env := &Env{fr: fr, st: &st, old: &st, vars: map[string]tval{}}
+			for _, p := range eng.pkgs {
+				if p.PkgPath == ax.Pkg {
+					env.pkg = p.Types
+				}
+			}
+			g, err := env.evalBool(ax.E)
+			if err != nil {
+				vc.assumptions["axiom "+ax.Name+" could not be evaluated: "+err.Error()] = true
+				continue
+			}
+			vc.assumptions["axiom "+ax.Name+" (trusted lemma): "+ax.Text] = true
+			out = append(out, "(assert "+g+") ; axiom "+ax.Name)
 		}
-		g, err := env.evalBool(ax.E)
-		if err != nil {
-			continue
-		}
-		out = append(out, "(assert "+g+") ; axiom "+ax.Name)
 	}
 	sort.Strings(out)
 	return out
@@ -574,6 +598,9 @@ func specNames(e Expr, acc []string) []string {
 		acc = specNames(x.R, acc)
 	case EQuant:
 		acc = specNames(x.Body, acc)
+		for _, pe := range x.Pats {
+			acc = specNames(pe, acc)
+		}
 	case ECond:
 		acc = specNames(x.C, acc)
 		acc = specNames(x.A, acc)
